@@ -254,3 +254,66 @@ package backend
 //@   ensures [same-lap] !ret.empty && !ret.high && !ret.low && locked(r.e)-rbase(locked(r.e), r.l) > first-rbase(first, r.l) ==> rbase(locked(r.e), r.l) == rbase(first, r.l) && forall(k, 0 <= k && k < n, touch(ret.events[k]) && rbase(first+int64(k), r.l) == rbase(first, r.l))
 //@   ensures [wrapped] !ret.empty && !ret.high && !ret.low && locked(r.e)-rbase(locked(r.e), r.l) <= first-rbase(first, r.l) ==> forall(k, 0 <= k && k < n, touch(ret.events[k]) && rbase(first+int64(k), r.l) == ite(first+int64(k) < rbase(first, r.l)+r.l, rbase(first, r.l), rbase(first, r.l)+r.l))
 //@   ensures [in-order-exactly] !ret.empty && !ret.high && !ret.low ==> forall(k, 0 <= k && k < n, ret.events[k] == locked(r.arr[(first+int64(k))-rbase(first+int64(k), r.l)]))
+
+// ---- C18: who may call the backend (interface contract used by the API servers) ----
+// leader_checked / synced are per-request ghost flags declared in package etcd: set by
+// PeerService.IsLeader() returning true and PeerService.SyncReadRevision() returning nil.
+//@ ghost backend_writes Int
+//@ ghost backend_reads Int
+
+//@ func Backend.Create(ctx, request) (resp, err)
+//@   assumed
+//@   requires [leader-only] leader_checked
+//@   modifies ghost.backend_writes
+//@   ensures [counted] backend_writes == old(backend_writes)+1
+//@ func Backend.Update(ctx, request) (resp, err)
+//@   assumed
+//@   requires [leader-only] leader_checked
+//@   modifies ghost.backend_writes
+//@   ensures [counted] backend_writes == old(backend_writes)+1
+//@ func Backend.Delete(ctx, request) (resp, err)
+//@   assumed
+//@   requires [leader-only] leader_checked
+//@   modifies ghost.backend_writes
+//@   ensures [counted] backend_writes == old(backend_writes)+1
+//@ func Backend.Compact(ctx, revision) (resp, err)
+//@   assumed
+//@   requires [leader-only] leader_checked
+//@   modifies ghost.backend_writes
+//@   ensures [counted] backend_writes == old(backend_writes)+1
+//@ func Backend.Watch(ctx, key, revision) (ch, err)
+//@   assumed
+//@   requires [leader-only] leader_checked
+//@   modifies ghost.backend_writes
+//@   ensures [counted] backend_writes == old(backend_writes)+1
+//@ func Backend.Get(ctx, r) (resp, err)
+//@   assumed
+//@   requires [after-sync] synced
+//@   modifies ghost.backend_reads
+//@   ensures [counted] backend_reads == old(backend_reads)+1
+//@ func Backend.List(ctx, r) (resp, err)
+//@   assumed
+//@   requires [after-sync] synced
+//@   modifies ghost.backend_reads
+//@   ensures [counted] backend_reads == old(backend_reads)+1
+//@ func Backend.Count(ctx, r) (resp, err)
+//@   assumed
+//@   requires [after-sync] synced
+//@   modifies ghost.backend_reads
+//@   ensures [counted] backend_reads == old(backend_reads)+1
+//@ func Backend.GetPartitions(ctx, r) (resp, err)
+//@   assumed
+//@   requires [after-sync] synced
+//@   modifies ghost.backend_reads
+//@   ensures [counted] backend_reads == old(backend_reads)+1
+//@ func Backend.ListByStream(ctx, startKey, endKey, revision) (ch, err)
+//@   assumed
+//@   requires [after-sync] synced
+//@   modifies ghost.backend_reads
+//@   ensures [counted] backend_reads == old(backend_reads)+1
+//@ func Backend.GetCurrentRevision() (result)
+//@   assumed
+//@   pure
+//@ func Backend.GetResourceLock() (result)
+//@   assumed
+//@   pure
